@@ -1,0 +1,45 @@
+package statsd
+
+import "sync"
+
+// eventCounter counts the events a handler has in flight. It is used like a sync.WaitGroup, but it may be incremented
+// from zero while a Wait is returning: senders keep dispatching events while the server waits for the outstanding ones
+// at shutdown, and sync.WaitGroup panics ("WaitGroup is reused before previous Wait has returned") when such an Add
+// meets a Wait that has been woken but has not returned yet.
+//
+// The zero value is ready to use.
+type eventCounter struct {
+	mu   sync.Mutex
+	zero *sync.Cond
+	n    int
+}
+
+// Add adds delta, which may be negative, to the counter and wakes the waiters when it reaches zero.
+func (c *eventCounter) Add(delta int) {
+	c.mu.Lock()
+	defer c.mu.Unlock()
+	c.n += delta
+	if c.n < 0 {
+		panic("statsd: negative event counter")
+	}
+	if c.n == 0 && c.zero != nil {
+		c.zero.Broadcast()
+	}
+}
+
+// Done decrements the counter by one.
+func (c *eventCounter) Done() {
+	c.Add(-1)
+}
+
+// Wait blocks until the counter is zero.
+func (c *eventCounter) Wait() {
+	c.mu.Lock()
+	defer c.mu.Unlock()
+	if c.zero == nil {
+		c.zero = sync.NewCond(&c.mu)
+	}
+	for c.n != 0 {
+		c.zero.Wait()
+	}
+}
